@@ -1,5 +1,6 @@
 import RR.Model.RingDriver
 import RR.Model.WaitDriver
+import RR.Model.BlockDriver
 import RR.Model.SchedDriver
 import RR.Model.ConcDriver
 
@@ -14,6 +15,7 @@ def dispatch (line : String) : String :=
   | "ringnew" :: rest => RingDriver.handleNew (" ".intercalate rest)
   | "conc" :: rest => ConcDriver.handle (" ".intercalate rest)
   | "sched" :: rest => SchedDriver.handle (" ".intercalate rest)
+  | "blk" :: rest => BlockDriver.handle (" ".intercalate rest) BlockDriver.registry
   | "wait" :: rest => WaitDriver.handle (" ".intercalate rest)
   | _ => "bad-model"
 
